@@ -31,7 +31,8 @@ def make_message(kind, device, value="Also"):
             attrs["device"] = device
         elif kind not in DEVICE_OPTIONAL:
             attrs["device"] = "A"
-    text = value if trule == "blobenable" else "Ok" if trule == "state" else None
+    # (a value that arrives from the wire is a string created at run time: equal to the vocabulary constant, not the same object)
+    text = "".join(list(value)) if trule == "blobenable" else "Ok" if trule == "state" else None
     children = []
     if child:
         preq, popt, prule = gen.PARTS[child]
